@@ -50,8 +50,11 @@ class CalcTargetPower:
     )
     loops = {
         "for next_proposal in sorted(proposals, reverse=True)": dict(
-            idx="_i",
+            idx="_i", seq_name="visit",
             invariant=dict(
+                # history-freedom: the sweep visits the live proposals in THE strict order of Proposal.__lt__
+                # (priority, then source id) - for a set of proposals with distinct keys that arrangement is unique
+                visited_in_strict_order="forall(0, len(visit) - 1, lambda j: visit[j + 1] < visit[j])",
                 lower_in_system="sys_lower(system_bounds) <= lower_bound",
                 upper_in_system="upper_bound <= sys_upper(system_bounds)",
                 excl_is_system="exclusion_bounds == sys_excl(system_bounds)",
@@ -428,4 +431,6 @@ class DropOldProposals:
                             " same_record(keyset_get(bucket(self, CID), KEY, (gp, gs)),"
                             " old(keyset_get(bucket(self, CID), KEY, (gp, gs)) if keyset_has(bucket(self, CID), KEY, (gp, gs)) else None)))",
         targets_untouched="stored_target(self, CID) == old(stored_target(self, CID))",
+        # class invariant of the power manager (C11): a component set with a stored target keeps its bucket
+        bucket_kept="(CID in self._component_buckets) == old(CID in self._component_buckets)",
     )
